@@ -1,6 +1,7 @@
 package props
 
 import (
+	"fmt"
 	"go/ast"
 	"go/token"
 	"go/types"
@@ -39,6 +40,10 @@ func runC03(c *engine.Ctx, tier string) {
 	removalsPersisted(c)
 	ancestorSearch(c)
 	mergeAgreement(c)
+	cascadeShape(c, "C03.10a", pkgCtlUtils, "controller/utils.AddDeleteChildren")
+	cascadeShape(c, "C03.10b", pkgTxCtlV3, "controller/v3/transaction.addDeleteChildren")
+	pruneShape(c, "C03.11a", pkgTreeV2)
+	pruneShape(c, "C03.11b", pkgTreeV3)
 	// (9) an acknowledged Set's values are in the stored configuration: the commit step skips the merge
 	// when the committed cursor is not at the predecessor, which is sound only because validation waited
 	// for the predecessor's commit (the cursor is then at the predecessor or already at this proposal)
@@ -250,13 +255,30 @@ func getFilterBoundary(c *engine.Ctx, id string) {
 		format = strings.ReplaceAll(format, "`", `"`)
 		format = strings.ReplaceAll(format, `\\[`, `\[`)
 		exact, slash := false, false
+		exactKnown, slashKnown := false, false
 		for _, l := range engine.CondsBefore(p, len(p.Events)-1) {
-			if l.L == "$exact" && l.R == "true" && l.Mask == 2 {
-				exact = true
+			if l.L == "$exact" && l.R == "true" {
+				exactKnown = true
+				if l.Mask == 2 {
+					exact = true
+				}
 			}
-			if l.L == `strings.HasSuffix($query,"/")` && l.R == "true" && l.Mask == 2 {
-				slash = true
+			if l.L == `strings.HasSuffix($query,"/")` && l.R == "true" {
+				slashKnown = true
+				if l.Mask == 2 {
+					slash = true
+				}
 			}
+		}
+		if !exactKnown {
+			o.Fail(&engine.Violation{Key: "MatchWildcardRegexp|exact flag not consulted", Pos: c.P.Pos(last.Pos), Func: p.Root.Name(),
+				Msg: "an expression is returned on a path that never tests the exact flag: an exact query would be answered with the subtree form (or the reverse)"})
+			continue
+		}
+		if !exact && !slash && !slashKnown && boundaryRe.MatchString(format) {
+			o.Fail(&engine.Violation{Key: "MatchWildcardRegexp|boundary group appended without testing for a trailing '/'", Pos: c.P.Pos(last.Pos), Func: p.Root.Name(),
+				Msg: "the boundary group is appended to the raw query on a path that does not exclude a query ending in '/': ^/a/(/|[|$) matches nothing beneath /a/ (a prefix-only Get of the root returns nothing)"})
+			continue
 		}
 		ok := false
 		switch {
@@ -857,6 +879,239 @@ func mergeAgreement(c *engine.Ctx) {
 				o.Fail(&engine.Violation{Key: fi.Name() + "|persisted merge bypasses applyChangeToConfig", Pos: c.P.Pos(b.Pos()), Func: fi.Name(),
 					Msg: "the change is merged into the validated copy with applyChangeToConfig but into the persisted value map by a bare indexed write: an ancestor's tombstone stays above the new value and the store prunes it"})
 			}
+		}
+	}
+}
+
+// cascadeShape: C03.10. The cascade of a delete over the stored values.
+func cascadeShape(c *engine.Ctx, id, rel, fn string) {
+	o := c.Custom(id, "K-facts(cascade)", fn+": (1) every change value is put into the result under its own path; (2) for a deleted change value, every stored value for which IsDescendantPath(stored.Path, change.Path) holds is put into the result under its own path with Deleted = true and Index = the transaction's index; (3) nothing else is tombstoned or taken from the stored values; (4) the result map is what is returned",
+		"a delete of a container or list removes what lies beneath it, and only that; the tombstones carry the deleting transaction's index so that the store persists them")
+	defer o.Done(5)
+	ps, err := c.A.PathsOpt(rel, engine.PathOpts{Roots: []string{fn}, NoInline: true})
+	if err != nil || len(ps) == 0 {
+		o.Undecided(rel, fmt.Sprintf("no paths for %s: %v", fn, err))
+		return
+	}
+	fi := ps[0].Root
+	var names []string
+	for _, f := range fi.Decl.Type.Params.List {
+		for _, n := range f.Names {
+			names = append(names, n.Name)
+		}
+	}
+	if len(names) != 3 {
+		o.Undecided(fn, "signature changed")
+		return
+	}
+	idx, chg, cfg := "$"+names[0], "elem($"+names[1]+")", "elem($"+names[2]+")"
+	delLit := chg + ".Deleted"
+	descLit := "utils/path.IsDescendantPath(" + cfg + ".Path," + chg + ".Path)"
+	holds := func(p *engine.Path, i int, l string) bool {
+		for _, x := range engine.CondsBefore(p, i) {
+			if x.L == l && x.R == "true" && x.Mask == 2 {
+				return true
+			}
+		}
+		return false
+	}
+	fail := func(p *engine.Path, pos token.Pos, msg string) {
+		o.Fail(&engine.Violation{Key: fi.Name() + "|" + msg, Pos: c.P.Pos(pos), Func: fi.Name(), Msg: msg})
+	}
+	for _, p := range ps {
+		o.Eval(1)
+		var ret *engine.Event
+		entered, chgPut, cfgPut, tomb, index := false, false, false, false, false
+		var result string
+		sawDel, sawDesc := false, false
+		for i := range p.Events {
+			e := &p.Events[i]
+			switch e.Kind {
+			case engine.EvCond:
+				if e.Lit.L == delLit {
+					entered = true // the body of the loop over the change starts with this test
+				}
+				if e.Lit.L == delLit && e.Lit.R == "true" && e.Lit.Mask == 2 {
+					sawDel = true
+				}
+				if e.Lit.L == descLit && e.Lit.R == "true" && e.Lit.Mask == 2 {
+					sawDesc = true
+				}
+			case engine.EvReturn:
+				ret = e
+			case engine.EvWrite:
+				guarded := holds(p, i, delLit) && holds(p, i, descLit)
+				switch {
+				case strings.HasSuffix(e.LHS, "["+chg+".Path]") && e.RHS == chg:
+					chgPut = true
+					result = stripVerC03(e.LHS[:strings.LastIndex(e.LHS, "[")])
+					o.Site(c.P.Pos(e.Pos) + " result[change.Path] = change")
+				case strings.HasSuffix(e.LHS, "["+cfg+".Path]") && e.RHS == cfg:
+					cfgPut = true
+					o.Site(c.P.Pos(e.Pos) + " result[stored.Path] = stored")
+					if !guarded {
+						fail(p, e.Pos, "a stored value is taken into the change without 'change deleted ∧ stored beneath change'")
+					}
+				case strings.HasSuffix(e.Field, ".PathValue.Deleted") && strings.Contains(e.LHS, cfg):
+					o.Site(c.P.Pos(e.Pos) + " stored.Deleted = true")
+					if e.RHS == "true" {
+						tomb = true
+					}
+					if !guarded || e.RHS != "true" {
+						fail(p, e.Pos, "a stored value's Deleted flag is written without 'change deleted ∧ stored beneath change', or not to true")
+					}
+				case strings.HasSuffix(e.Field, ".PathValue.Index") && strings.Contains(e.LHS, cfg):
+					o.Site(c.P.Pos(e.Pos) + " stored.Index = index")
+					if e.RHS == idx {
+						index = true
+					} else {
+						fail(p, e.Pos, "a cascaded tombstone gets an index other than the transaction's")
+					}
+				case strings.Contains(e.LHS, "["+cfg+".Path]") || strings.Contains(e.LHS, "["+chg+".Path]"):
+					fail(p, e.Pos, "the result is written with something other than the value itself: "+e.LHS+" = "+e.RHS)
+				}
+			}
+		}
+		end := token.NoPos
+		if ret != nil {
+			end = ret.Pos
+		}
+		if entered && !chgPut {
+			fail(p, end, "a path through the loop over the change does not put the change value into the result")
+		}
+		if sawDel && sawDesc && !(cfgPut && tomb && index) {
+			fail(p, end, "a stored value beneath a deleted change value is not put into the result with Deleted = true and Index = index")
+		}
+		if ret != nil && result != "" && (len(ret.Results) != 1 || stripVerC03(ret.Results[0]) != result) {
+			fail(p, end, "the function does not return the map it filled")
+		}
+	}
+}
+
+func stripVerC03(s string) string {
+	if i := strings.LastIndex(s, "#"); i >= 0 && !strings.ContainsAny(s[i:], ".[(") {
+		return s[:i]
+	}
+	return s
+}
+
+// pruneShape: C03.11. What PrunePathValues keeps.
+func pruneShape(c *engine.Ctx, id, rel string) {
+	fn := strings.TrimPrefix(rel, "pkg/") + ".PrunePathValues"
+	o := c.Custom(id, "K-facts(prune)", fn+": the input is copied before it is sorted; the comparator is Path < Path; in one iteration over the sorted values — a value beneath a recorded deleted subtree is neither kept nor recorded; a deleted value not beneath one is recorded and kept iff leaveTopDeletedPaths; any other value is kept; the kept list is returned",
+		"the store persists, Get renders and the device receives exactly what pruning keeps: a tombstone must hide what lies beneath it and nothing else")
+	defer o.Done(4)
+	ps, err := c.A.PathsOpt(rel, engine.PathOpts{Roots: []string{fn}, Exact: true, NoInline: true})
+	if err != nil || len(ps) == 0 {
+		o.Undecided(rel, fmt.Sprintf("no paths for %s: %v", fn, err))
+		return
+	}
+	fail := func(p *engine.Path, pos token.Pos, msg string) {
+		o.Fail(&engine.Violation{Key: fn + "|" + msg, Pos: c.P.Pos(pos), Func: fn, Msg: msg})
+	}
+	for _, p := range ps {
+		if p.Lit != nil {
+			// the comparator
+			for i := range p.Events {
+				if e := &p.Events[i]; e.Kind == engine.EvReturn && len(e.Results) == 1 {
+					o.Site(c.P.Pos(e.Pos) + " comparator " + e.Results[0])
+					o.Eval(1)
+					if !regexp.MustCompile(`^\(?\^sortedPaths\[\$i\]\.Path < \^sortedPaths\[\$j\]\.Path\)?$`).MatchString(e.Results[0]) {
+						fail(p, e.Pos, "the sort comparator is "+e.Results[0]+", not Path < Path: an ancestor no longer sorts before what lies beneath it")
+					}
+				}
+			}
+			continue
+		}
+		o.Eval(1)
+		var sorted string
+		copied, sortedCall := false, false
+		desc, del, delKnown, leave, leaveKnown := false, false, false, false, false
+		keep, record := false, false
+		body := false
+		hasBreak := false
+		var ret *engine.Event
+		for i := range p.Events {
+			e := &p.Events[i]
+			switch e.Kind {
+			case engine.EvBranch:
+				if e.Tok == token.BREAK {
+					hasBreak = true
+				}
+			case engine.EvCall:
+				switch {
+				case e.CalleeName == "copy" && len(e.Args) == 2 && e.Args[1] == "$paths":
+					copied = true
+					sorted = e.Args[0]
+				case e.CalleeName == "sort.Slice" && len(e.Args) == 2:
+					sortedCall = e.Args[0] == sorted && sorted != ""
+					if !sortedCall {
+						fail(p, e.Pos, "sort.Slice is applied to "+e.Args[0]+", not to the copy of the input")
+					}
+				case e.CalleeName == "append" && len(e.Args) == 2 && sorted != "" && e.Args[1] == "elem("+sorted+")":
+					keep = true
+					o.Site(c.P.Pos(e.Pos) + " keep")
+				case e.CalleeName == "append" && len(e.Args) == 2 && sorted != "" && e.Args[1] == "elem("+sorted+").Path":
+					record = true
+					o.Site(c.P.Pos(e.Pos) + " record deleted subtree")
+				case e.CalleeName == "append":
+					fail(p, e.Pos, "append("+strings.Join(e.Args, ", ")+") is neither 'keep the value' nor 'record its path'")
+				}
+			case engine.EvCond:
+				l := e.Lit
+				switch {
+				case sorted != "" && strings.HasPrefix(l.L, subtreeHelper+"(elem("+sorted+").Path,") && l.R == "true":
+					body = true
+					if l.Mask == 2 {
+						desc = true
+					}
+				case sorted != "" && l.L == "elem("+sorted+").Deleted" && l.R == "true":
+					body, delKnown, del = true, true, l.Mask == 2
+				case l.L == "$leaveTopDeletedPaths" && l.R == "true":
+					leaveKnown, leave = true, l.Mask == 2
+				}
+			case engine.EvReturn:
+				ret = e
+			}
+		}
+		end := token.NoPos
+		if ret != nil {
+			end = ret.Pos
+		}
+		if !copied || !sortedCall {
+			fail(p, end, "the input slice is not copied before sorting (the caller's order would be changed)")
+		}
+		if !body {
+			continue
+		}
+		if !desc && !delKnown {
+			fail(p, end, "a value is kept or recorded on a path that never tests its Deleted flag")
+		}
+		if hasBreak {
+			fail(p, end, "the loop over the sorted values is left early (break): the values that sort after this one are lost")
+		}
+		switch {
+		case desc:
+			if keep || record {
+				fail(p, end, "a value beneath a recorded deleted subtree is kept or recorded")
+			}
+		case delKnown && del:
+			if !record {
+				fail(p, end, "a deleted value is not recorded as a deleted subtree: what lies beneath it is kept")
+			}
+			if leaveKnown && keep != leave {
+				fail(p, end, "the top tombstone is kept exactly when leaveTopDeletedPaths is false")
+			}
+			if !leaveKnown {
+				fail(p, end, "a tombstone is kept or dropped without consulting leaveTopDeletedPaths")
+			}
+		case delKnown && !del:
+			if !keep || record {
+				fail(p, end, "a live value that is not beneath a deleted subtree is not kept (or is recorded as deleted)")
+			}
+		}
+		if ret != nil && (len(ret.Results) != 1 || !strings.HasPrefix(ret.Results[0], "?prunedPaths")) {
+			fail(p, end, "the function returns "+strings.Join(ret.Results, ",")+", not the kept list")
 		}
 	}
 }
